@@ -22,6 +22,7 @@ MISMATCH = {1: 'model and code disagree on accepting / rejecting the message',
 MONITOR = {11: 'a (source, destination, sequence) triple was accepted twice',
            12: 'a rejected message changed state',
            20: 'a packet receipt disappeared or changed',
+           21: 'an accepted receive did not write the (previously absent) receipt of its triple',
            13: 'nextSequenceSend / commitments changed in a way not explained by the sends of the step (gap, repeat, wrong hash)',
            14: 'packet contract send counter differs from the chain-side counter',
            15: 'accepted receive addressed to this chain did not write exactly one new acknowledgement',
@@ -31,7 +32,7 @@ MONITOR = {11: 'a (source, destination, sequence) triple was accepted twice',
            19: 'an accepted receive / acknowledgement was not verified by the counterparty client for the recomputed (path, value)',
            22: 'a rejected message changed balances / bindings',
            6: 'malformed case'}
-KINDS = {'C01': {11, 12, 20, 22, 6}, 'C02': {19, 12, 22, 6}, 'C04': {13, 14, 12, 22, 6}, 'C05': {15, 16, 17, 18, 6}}
+KINDS = {'C01': {11, 12, 20, 21, 22, 6}, 'C02': {19, 12, 22, 6}, 'C04': {13, 14, 12, 22, 6}, 'C05': {15, 16, 17, 18, 6}}
 # what the self-named-client witness (hypothesis O7) is expected to break on the real code
 O7_EXPECT = {'C04': {13}, 'C05': {13, 17, 18}, 'C01': set(), 'C02': set()}
 
@@ -83,8 +84,14 @@ def t_height(h):
 def t_act(tk, a, cls, err=''):
     t = a['t']
     if t == 'recv':
+        c = a['cb']
+        if cls != 0:
+            # nothing of the callback is observable for a rejected message.  Give the model the input "the callback
+            # fails" (error acknowledgement, always packable): then the model accepts exactly when the verification and
+            # relayer stages pass, so an implementation that rejects a message it should accept is NOT masked.
+            c = dict(sends=[], fail=True, ret=None)
         return '(ARecv (mkRecv %s %s %s %s) %s)' % (cb(tk(a['packet'])), cb(tk(a['proof'])), t_height(a['height']),
-                                                    cb(tk(a['signer'])), t_cb(tk, a['cb']))
+                                                    cb(tk(a['signer'])), t_cb(tk, c))
     if t == 'ack':
         cbs = [dict(c) for c in a['cbs']]
         # which module->contract call failed is an INPUT of the model (environment's choice); for a rejected ack it is
@@ -316,7 +323,7 @@ def check(run, prop):
         rule='relay histories on 3 real chains (Tendermint light clients, IAVL proofs, BaseApp.Deliver, real EVM contracts); '
              'one evaluation = one recorded step (message / EVM transaction / block) compared with the model and checked by the '
              'monitors; non-trivial = recv/ack/send steps, distinct by (kind, outcome, packet bytes, proof prefix)',
-        distribution=top, model_mismatches=len(mm), monitor_failures=len([f for f in ff if f[2] in kinds]),
+        distribution=top, model_mismatches=len(mm), monitor_failures_incl_o7_witness=len([f for f in ff if f[2] in kinds]),
         o7_witness_cases=o7_cases,
         samples=[results[i]['spec'] for i in range(min(2, len(results)))]))
     run.coverage['trusted_base'] += [
@@ -338,7 +345,7 @@ def check(run, prop):
     # ---- the O7 witness: the hypothesis is necessary on the real code (informational, never a violation) ----
     o7_seen = sorted({k for h, s, k in ff if h in o7_cases})
     run.coverage['o7_witness_monitor_kinds_on_real_code'] = o7_seen
-    ff = [f for f in ff if not (f[0] in o7_cases and f[2] in O7_EXPECT[prop] | {13, 17, 18, 21})]
+    ff = [f for f in ff if not (f[0] in o7_cases and f[2] in O7_EXPECT[prop] | {13, 17, 18})]
     mm_o7 = [m for m in mm if m[0] in o7_cases]
     ff = [f for f in ff if f[2] in kinds]
 
@@ -356,20 +363,34 @@ def check(run, prop):
         m2, f2 = evaluate(run.work, rs, 'shrink_cases')
         return m2 is not None and len(m2) > 0
 
+    def truncated(h, s):
+        # cut the abstract history after the op that produced the failing step
+        sp = dict(results[h]['spec'])
+        op = op_of_step(results[h], s)
+        if op is not None:
+            sp['ops'] = sp['ops'][:op + 1]
+        return sp
+
     reported = set()
     for h, s, k in ff:
         if h in reported:
             continue
         reported.add(h)
-        small = shrink(run.work, results[h]['spec'], fails_monitor)
+        sp = truncated(h, s)
+        if not fails_monitor(sp):
+            sp = results[h]['spec']
+        small = shrink(run.work, sp, fails_monitor, budget=8)
         run.violation(dict(kind='monitor', code=k, what=MONITOR.get(k), spec=small, failing_step=s,
                            observed=results[h]['steps'][s]['obs'].get('err', '') if s < len(results[h]['steps']) else ''),
                       name='replay_h%d.json' % h)
-        if len(run.violations) >= 3:
+        if len(run.violations) >= 2:
             break
     if not run.violations:
         for h, s, k in mm[:1]:
-            small = shrink(run.work, results[h]['spec'], fails_model)
+            sp = truncated(h, s)
+            if not fails_model(sp):
+                sp = results[h]['spec']
+            small = shrink(run.work, sp, fails_model, budget=8)
             run.violation(dict(kind='correspondence', code=k, what=MISMATCH.get(k), spec=small, failing_step=s,
                                explanation='Model/Packet.v no longer describes the packet core of /repo; the theorems of '
                                            'Props/%s.v are about the model, so the property is no longer shown to hold' % prop,
